@@ -736,6 +736,16 @@ func check(prop, tier string) int {
 				bp.Skip = nil
 				conf, err = runOne(b, bp, p.Race)
 			}
+			// whether ThreadSanitizer reports a race on the (exactly replayed) schedule also depends on
+			// incidental happens-before edges inside the Go runtime: a race confirmation is retried
+			for attempt := 0; p.Race && attempt < 8 && (err != nil || conf.V == nil || !sameViolation(conf.V, v.V)); attempt++ {
+				bp := v.Params
+				if attempt%2 == 1 && len(batch) == 4 {
+					bp.Batch = batch
+					bp.Skip = nil
+				}
+				conf, err = runOne(b, bp, p.Race)
+			}
 			if err != nil || conf.V == nil || !sameViolation(conf.V, v.V) {
 				b.cleanup()
 				die2("determinism failure of the machinery: violation %s of seed %d did not reproduce in a fresh process (%v)", v.V.Sig, v.Params.Seed, err)
